@@ -214,6 +214,117 @@ def semdump(m):
     return (m.RULE, tuple(out))
 
 
+_VPROPS = {}
+_COMMENT_PROPS = frozenset(['leading_comment', 'trailing_comment'])
+
+
+def value_prop_names(cls):
+    """Names of the value-level properties of a model class (descriptor introspection), comments aside (attribution)."""
+    r = _VPROPS.get(cls)
+    if r is None:
+        from autobean_refactor.models.internal import value_properties as VP
+        from autobean_refactor.models import meta_value_internal as MV
+        kinds = (VP.required_value_property, VP.optional_string_property, VP.optional_indented_string_property,
+                 VP.optional_decimal_property, VP.optional_date_property, MV.optional_meta_value_property)
+        r = []
+        for name in sorted(dir(cls)):
+            if name.startswith('_') or name in _COMMENT_PROPS:
+                continue
+            d = None
+            for k in cls.__mro__:
+                if name in vars(k):
+                    d = vars(k)[name]
+                    break
+            if isinstance(d, kinds):
+                r.append(name)
+        if cls.__name__ == 'Transaction':
+            r = [n for n in r if n not in ('string0', 'string1', 'string2')]      # payee / narration say the same, slot-independently
+        _VPROPS[cls] = r
+    return r
+
+
+def warm(root):
+    """Reads every public attribute and view of every model reachable from root (what any caller may have done before an
+    edit): whatever the library memoises on first use is then part of the pre-state of the operation under test."""
+    with NoTracing():
+        for _, m in walk(root):
+            if isinstance(m, (base.RawTokenModel, R.Repeated)):
+                if isinstance(m, base.RawTokenModel) and hasattr(type(m), 'value'):
+                    try:
+                        m.value
+                    except Exception:
+                        pass
+                continue
+            for name in dir(type(m)):
+                if name.startswith('_'):
+                    continue
+                d = getattr(type(m), name, None)
+                if callable(d) and not isinstance(d, property) and not hasattr(d, '__get__'):
+                    continue
+                try:
+                    v = getattr(m, name)
+                except Exception:
+                    continue
+                if callable(v):
+                    continue
+                if hasattr(v, '__len__') and hasattr(v, '__iter__') and not isinstance(v, (str, bytes, tuple)):
+                    try:
+                        len(v), list(v)
+                        if hasattr(v, 'keys'):
+                            list(v.keys())
+                    except Exception:
+                        pass
+
+
+def _plain(v):
+    if isinstance(v, base.RawModel):
+        return ('model', type(v).__name__, text_of(v))
+    return (type(v).__name__, str(v)) if v is not None else None
+
+
+def valuedump(m):
+    """What the value-level API SAYS: nested tuples of every value-level property of every model (token values included),
+    block comments and their attribution aside.  Compared between the edited model and the re-parse of its printed text."""
+    if m is None:
+        return None
+    if isinstance(m, base.RawTokenModel):
+        if m.RULE in _SKIP_RULES or m.RULE == 'INLINE_COMMENT' or m.RULE == 'INDENT':
+            return None
+        if hasattr(type(m), 'value'):
+            try:
+                return (m.RULE, _plain(m.value))
+            except Exception as e:
+                return (m.RULE, 'raises', type(e).__name__)
+        return None
+    if isinstance(m, R.Repeated):
+        return ('repeated', tuple(valuedump(it) for it in m.items if not isinstance(it, models.BlockComment)))
+    out = []
+    if hasattr(type(m), 'value') and isinstance(m, (models.NumberExpr, models.NumberAddExpr, models.NumberMulExpr, models.NumberUnaryExpr, models.NumberParenExpr)):
+        try:
+            out.append(('.value', _plain(m.value)))
+        except Exception as e:
+            out.append(('.value', 'raises', type(e).__name__))
+    if isinstance(m, (models.NumberAddExpr, models.NumberMulExpr)):
+        return (m.RULE, tuple(out), tuple(valuedump(x) for x in m.raw_operands))
+    for name in value_prop_names(type(m)):
+        try:
+            v = getattr(m, name)
+        except Exception as e:
+            out.append((name, 'raises', type(e).__name__))
+            continue
+        if name == 'inline_comment' and isinstance(v, str):
+            v = v.rstrip(' \t')
+        out.append((name, _plain(v)))
+    kids = []
+    for name in sorted(field_names(type(m))):
+        if name in ('_leading_comment', '_trailing_comment'):
+            continue
+        d = valuedump(m.__dict__.get(name))
+        if d is not None:
+            kids.append((name, d))
+    return (m.RULE, tuple(out), tuple(kids))
+
+
 def comments_of(store):
     """Comment LINES in document order: two adjacent comment tokens re-lex as one multi-line comment, which is
     attribution, not content."""
@@ -234,7 +345,21 @@ def reparse_equivalent(root, cls=models.File, what='reparse'):
         ca, cb = comments_of(root.token_store), comments_of(again.token_store)
         if ca != cb:
             raise Fail('%s: block comments differ after re-parse: %r vs %r (text %r)' % (what, ca, cb, text))
+        va, vb = valuedump(root), valuedump(again)
+        if va != vb:
+            raise Fail('%s: the value-level properties of the edited model say something else than those of its re-parsed text: %s (text %r)' % (what, _first_diff(va, vb), text))
         return again
+
+
+def _first_diff(a, b, path=''):
+    if type(a) is not type(b) or not isinstance(a, tuple):
+        return '%s: model %r, re-parse %r' % (path or 'root', a, b)
+    if len(a) != len(b):
+        return '%s: %d vs %d entries: model %r, re-parse %r' % (path or 'root', len(a), len(b), a, b)
+    for k, (x, y) in enumerate(zip(a, b)):
+        if x != y:
+            return _first_diff(x, y, path + ('/%s' % (x[0] if isinstance(x, tuple) and x and isinstance(x[0], str) else k)))
+    return 'equal'
 
 
 class Snapshot:
